@@ -2119,7 +2119,11 @@ enhance(vbi_decoder *vbi,
 
 				row = es.inv_row + es.active_row;
 				count = (p->data >> 4) + 1;
-				acp = &pg->text[row * EXT_COLUMNS];
+				/* Mind the row can be below the page
+				   in objects. */
+				acp = pg->text;
+				if (row < ROWS)
+					acp += row * EXT_COLUMNS;
 
 				proportional = (p->data >> 0) & 1;
 				bold = (p->data >> 1) & 1;
